@@ -34,6 +34,7 @@ import (
 	pb "github.com/containerd/stargz-snapshotter/fusemanager/api"
 	"github.com/containerd/stargz-snapshotter/service"
 	"github.com/containerd/stargz-snapshotter/snapshot"
+	"github.com/containerd/stargz-snapshotter/util/namedmutex"
 )
 
 const (
@@ -118,6 +119,9 @@ type Server struct {
 	// fsMap maps mountpoint to its filesystem instance to ensure Mount/Check/Unmount
 	// call the proper filesystem
 	fsMap sync.Map
+	// mpLock serializes Mount and Unmount of the same mountpoint: they run under the shared
+	// lock, and "look up fsMap, then act, then update fsMap and the fusestore" must not interleave
+	mpLock namedmutex.NamedMutex
 	// curFs is filesystem created by latest config
 	curFs snapshot.FileSystem
 	ms    *bolt.DB
@@ -229,6 +233,8 @@ func (fm *Server) Init(ctx context.Context, req *pb.InitRequest) (*pb.Response, 
 func (fm *Server) Mount(ctx context.Context, req *pb.MountRequest) (*pb.Response, error) {
 	fm.lock.RLock()
 	defer fm.lock.RUnlock()
+	fm.mpLock.Lock(req.Mountpoint)
+	defer fm.mpLock.Unlock(req.Mountpoint)
 	if fm.status != FuseManagerReady {
 		return &pb.Response{}, fmt.Errorf("fuse manager not ready")
 	}
@@ -280,6 +286,8 @@ func (fm *Server) Check(ctx context.Context, req *pb.CheckRequest) (*pb.Response
 func (fm *Server) Unmount(ctx context.Context, req *pb.UnmountRequest) (*pb.Response, error) {
 	fm.lock.RLock()
 	defer fm.lock.RUnlock()
+	fm.mpLock.Lock(req.Mountpoint)
+	defer fm.mpLock.Unlock(req.Mountpoint)
 	if fm.status != FuseManagerReady {
 		return &pb.Response{}, fmt.Errorf("fuse manager not ready")
 	}
